@@ -157,7 +157,17 @@ def run(ctx, rep):
     spaces.check_sink_spaces(ctx, rep, "R6.3", sinks, classes)
 
     # ---- R6.4 ---------------------------------------------------------
+    r64(ctx, rep, sinks)
+
+    # ---- R6.5 ---------------------------------------------------------
+    common.check_closure_capture(ctx, rep, "R6.5")
+
+
+def r64(ctx, rep, sinks=None, rule="R6.4"):
     from ..alias import Alias
+    if sinks is None:
+        live = ctx.facts.live
+        sinks = [ev for ev in ctx.sink_events() if not live.is_dead(ev)]
     for ev in sinks:
         if ev.lam is not None:
             continue
@@ -171,14 +181,11 @@ def run(ctx, rep):
         roots = al.roots(e, e)
         desc = f"{ev.func.local}:{ev.line} `{norm(e)}` handed to user code"
         if roots:
-            rep.bad("R6.4", desc)
-            rep.finding("R6.4", ev.func, ev.text(), ev.line,
+            rep.bad(rule, desc)
+            rep.finding(rule, ev.func, ev.text(), ev.line,
                         f"user code receives an array that aliases {sorted(roots)[:3]}: if it modifies its argument, the constraint functions / the solver see a different point than the one evaluated")
         else:
-            rep.ok("R6.4", desc + " is a private copy")
-
-    # ---- R6.5 ---------------------------------------------------------
-    common.check_closure_capture(ctx, rep, "R6.5")
+            rep.ok(rule, desc + " is a private copy")
 
 
 def _reach_avoiding(cg, src, avoid, edge_ok):
